@@ -15,6 +15,7 @@ import (
 	"sort"
 	"strings"
 	"sync"
+	"time"
 
 	"github.com/theory/sqljson/path"
 	sqlexec "github.com/theory/sqljson/path/exec"
@@ -195,6 +196,8 @@ func checkC19(c Case) *Failure {
 		return c19History(c, nil)
 	case "determinism":
 		return c19Determinism(c)
+	case "zone-history":
+		return c19ZoneHistory(c.Path)
 	}
 	return nil
 }
@@ -213,6 +216,8 @@ var c19PathPool = []string{
 	`$.a[*] + 1`, `-$.a[0]`, `($.a[0] == 1) is unknown`, `exists($.d.e[*] ? (@ == true))`, `$.a[*] == 2`, `$.e[*] == 4`, `$.e[*] > 2`, `strict $.a[*].size()`,
 	`$.a[$y]`, `$.a[*] ? (@ > $y && @ < 3)`, `$.*`, `$.b like_regex "x" flag "q"`, `$[*].integer()`, `strict $.** ? (exists(@.b)).b`, `$.a ? (@[*] ? (@ > 1) == 2)`,
 	`$.e.abs()`, `$.e[0][0 to last] * 2`, `$.e[*] ? (@ == 1 || @ == 4)`,
+	`"2015-08-02".timestamp_tz().string()`, `$.s.timestamp().string()`, `"2015-08-02T01:00:00".timestamp_tz() < $.s.timestamp_tz()`,
+	`(exists($.a)).type()`, `(!($.a[0] == 1)).string()`, `(($.a[0] == 1) is unknown).boolean()`, `($.a[0] + 1).abs() * 2`,
 }
 
 const c19Doc = `{"a":[1,2,3],"b":"x","c":null,"d":{"e":[true,false]},"s":"2015-08-02T12:34:56+05:30","e":[[1,2,3],4]}`
@@ -379,6 +384,37 @@ func c19Determinism(c Case) *Failure {
 			} else if res != first {
 				return &Failure{Sig: "C19/not-deterministic/" + kind, Expected: first, Observed: res}
 			}
+		}
+	}
+	return nil
+}
+
+// c19ZoneHistory: a call's result does not depend on which context zones earlier calls used, even when
+// two zones share a name/abbreviation: the result under (name N, offset B) after a call under (N, A)
+// equals the result under a never-used name with offset B.
+func c19ZoneHistory(pathText string) *Failure {
+	p, err := path.Parse(pathText)
+	if err != nil {
+		return nil
+	}
+	doc := mustDoc(c19Doc, "float64")
+	run := func(zone *time.Location) string {
+		ctx := types.ContextWithTZ(context.Background(), zone)
+		items, err := p.Query(ctx, doc, sqlexec.WithTZ(), sqlexec.WithVars(sqlexec.Vars{"x": "x", "y": int64(1)}))
+		if err != nil {
+			return "err " + classify(err)
+		}
+		return canonMultiset(items)
+	}
+	hour := 3600
+	pairs := [][2]int{{-6 * hour, 8 * hour}, {5*hour + 1800, 2 * hour}, {0, -4 * hour}}
+	for i, pr := range pairs {
+		name := fmt.Sprintf("XS%d", i)
+		_ = run(time.FixedZone(name, pr[0]))
+		got := run(time.FixedZone(name, pr[1]))
+		want := run(time.FixedZone(fmt.Sprintf("Q%d%d", i, len(pathText)), pr[1]))
+		if got != want {
+			return &Failure{Sig: "C19/result-depends-on-earlier-context-zone", Expected: want, Observed: got + " (after a call under a zone of the same name with another offset)"}
 		}
 	}
 	return nil
@@ -571,6 +607,10 @@ func runC19(r *Run) {
 		c := Case{Rule: "history", Path: c19PathPool[i], Extra: map[string]string{"depth": depth}}
 		if f := c19History(c, r); f != nil {
 			r.Fail(c, f)
+		}
+		zc := Case{Rule: "zone-history", Path: c19PathPool[i]}
+		if f := c19ZoneHistory(c19PathPool[i]); f != nil {
+			r.Fail(zc, f)
 		}
 		for _, z := range []string{"", "America/New_York"} {
 			d := Case{Rule: "determinism", Path: c19PathPool[i], Zone: z}
